@@ -289,6 +289,26 @@ class RandomDraw(InstructionGenerator):
         return self, tuple(out)
 
 
+class Resend(InstructionGenerator):
+    """a client that re-plans vehicles under way: with probability p it repeats the current dispatch of a vehicle that is
+    travelling to a request (same vehicle, same request). It never creates a pairing of its own."""
+
+    def __init__(self, seed: int, p: float = 0.3):
+        self.seed, self.p = seed, p
+
+    @property
+    def name(self) -> str:
+        return "Resend"
+
+    def generate_instructions(self, sim, env):
+        out = []
+        t = int(sim.sim_time)
+        for v in sim.get_vehicles():
+            if type(v.vehicle_state).__name__ == "DispatchTrip" and len(v.vehicle_state.route) > 0 and _rng(self.seed, "rs", t, v.id).random() < self.p:
+                out.append(DispatchTripInstruction(v.id, v.vehicle_state.request_id))
+        return self, tuple(out)
+
+
 class Stateful(InstructionGenerator):
     """a generator in hive's immutable style whose behaviour depends on state it hands on by returning an updated copy
     of itself (as examples/cosim_custom_dispatcher.py does): every k-th call it repositions one vehicle. If a stale copy
@@ -358,6 +378,10 @@ def build_generators(ctrl: Dict[str, Any], env, seed: int):
             out.append(Interrupt(**kw))
         elif isinstance(item, dict) and "random_draw" in item:
             out.append(RandomDraw(**item["random_draw"]))
+        elif isinstance(item, dict) and "resend" in item:
+            kw = dict(item["resend"])
+            kw.setdefault("seed", seed)
+            out.append(Resend(**kw))
         elif isinstance(item, dict) and "stateful" in item:
             out.append(Stateful(**item["stateful"]))
         elif item == "Pending":
